@@ -34,7 +34,12 @@ def record(b, o, radii_nm, cart, rng):
     try:
         with quiet():
             fg = FullGrid(b, o, str(list(radii_nm)), position_grid_cartesian=cart)
-            fg.get_full_grid_as_array()
+            first = fg.get_full_grid_as_array()
+            # a caller converts the array it was handed to nm and reverses the rows in place (the pinned tree hands out a
+            # fresh array per call - the docstring even says nm - so this is the caller's own copy), then asks again
+            if isinstance(first, np.ndarray) and first.ndim == 2 and first.flags.writeable and len(radii_nm) % 2 == 0:
+                first[:, :3] /= 10
+                first[:] = first[::-1].copy()
             fg.get_position_grid().get_position_grid_as_array()
             arr = np.asarray(fg.get_full_grid_as_array())          # asked repeatedly: the last answer is the one that is checked
             ogrid = np.asarray(fg.get_position_grid().get_o_grid().get_grid_as_array())
